@@ -778,9 +778,9 @@ LLCP = [0, 1, 2, 3, 17, 18, 1491, 1492]      # 802.3 length field <= 1500 includ
 STACKS = {}
 ORDER = []
 
-def stack (name, layers, payload="raw", plens=SMALL, quick_plens=None, vlan=True):
-  STACKS[name] = dict(name=name, layers=layers, payload=payload, plens=plens if payload else [0],
-                      quick_plens=quick_plens)
+def stack (name, layers, payload="raw", plens=SMALL, vlan=True):
+  zc = payload == "raw" and len(layers) >= 2 and layers[-1][0] == "udp" and layers[-2][0] in ("ipv4", "ipv6")
+  STACKS[name] = dict(name=name, layers=layers, payload=payload, plens=plens if payload else [0], zero_csum=zc)
   ORDER.append(name)
   if vlan:
     # the same stack behind an 802.1Q tag (the tag takes over the ethertype of the Ethernet header)
@@ -789,7 +789,7 @@ def stack (name, layers, payload="raw", plens=SMALL, quick_plens=None, vlan=True
     et = l0[1].get("type", [0x88b5])
     vl = [("eth", dict(l0[1], type=[0x8100])), ("vlan", dict(eth_type=et))] + list(layers[1:])
     STACKS["vlan:" + name] = dict(name="vlan:" + name, layers=vl, payload=payload, plens=plens if payload else [0],
-                                  quick_plens=quick_plens)
+                                  zero_csum=zc)
     ORDER.append("vlan:" + name)
 
 E = lambda t: ("eth", dict(type=[t] if not isinstance(t, list) else t))
@@ -843,7 +843,7 @@ stack("eth/ipv4/udp/rip", [E(0x0800), I4(17), UDP(520, 520), ("rip", {})], paylo
 
 stack("eth/ipv6/raw", [E(0x86dd), I6([253, 255, 41], ext=[[]])])
 stack("eth/ipv6/none", [E(0x86dd), I6(59)], payload=None)
-stack("eth/ipv6/udp", [E(0x86dd), I6(17), UDP()], plens=SMALL, quick_plens=None)
+stack("eth/ipv6/udp", [E(0x86dd), I6(17), UDP()])
 stack("eth/ipv6/tcp", [E(0x86dd), I6(6), ("tcp", {})])
 stack("eth/ipv6/udp/dns", [E(0x86dd), I6(17, ext=[[]]), UDP(None, 53), ("dns", dict(sections=DNS_SECTIONS[:2]))], payload=None, vlan=False)
 stack("eth/ipv6/icmpv6/raw", [E(0x86dd), I6(58, ext=[[]]), ("icmpv6", {})])
@@ -886,11 +886,24 @@ def values (st, devs):
   return vs
 
 
+def zero_checksum_payload (st, vs):
+  """Two payload bytes for a .../ip/udp stack such that the RFC 768 checksum of the UDP datagram computes
+  to 0x0000 (which must then be transmitted as 0xffff)."""
+  kinds = [k for k, _ in st["layers"]]
+  assert kinds[-1] == "udp" and kinds[-2] in ("ipv4", "ipv6")
+  ipv, u = vs[-2], vs[-1]
+  if kinds[-2] == "ipv4": ph = R.pseudo4(ip4(ipv["srcip"]), ip4(ipv["dstip"]), 17, 10)
+  else: ph = R.pseudo6(ip6(ipv["srcip"]), ip6(ipv["dstip"]), 17, 10)
+  s0 = R.ones_sum(ph + struct.pack("!HHHH", u["srcport"], u["dstport"], 10, 0))
+  return struct.pack("!H", 0xffff - s0)
+
+
 def build (P, st, devs, plen):
   """Assemble the packet with the POX classes.  Returns (outermost object, [objects outermost
   first], [per-layer value dicts], payload bytes or None)."""
   vs = values(st, devs)
-  payload = pattern(plen) if st["payload"] else None
+  if plen < 0: payload = zero_checksum_payload(st, vs)
+  else: payload = pattern(plen) if st["payload"] else None
   inner = payload
   objs = []
   for (k, pins), v in reversed(list(zip(st["layers"], vs))):
